@@ -70,7 +70,7 @@ CHECKS = {
              "10 s) x step size x segmentation are run with a data file and TLC checks that each row takes effect exactly at its stamp, "
              "on the addressed device only, with a step ending at the stamp.",
         note=TRUSTED + "Newton outcomes are abstracted to classes in the model; 1 model unit = 1e-5 s on replay; quick tier replays a "
-                       "seeded sample of the TLC-enumerated space (thorough: up to 12000)."),
+                       "seeded sample of the TLC-enumerated space (thorough: up to 4000)."),
     "C10": dict(
         engine="addressing", design_ref="DESIGN.md 4 (C10)",
         technique="TLC model checking of Addressing (block allocation, two rounds) + generated and stock Systems observed after "
